@@ -39,6 +39,9 @@ pub use self::{
     protocol::{DEFAULT_PROTOCOL_NAME, ResponseError},
 };
 
+#[cfg(libp2p_verif)]
+pub use self::behaviour::verif_c50;
+
 pub(crate) mod proto {
     #![allow(unreachable_pub)]
     include!("v1/generated/mod.rs");
